@@ -19,6 +19,19 @@ PCT_QUICK = [(3, "enc", 104, 300), (4, "enc", 200, 150), (8, "enc", 300, 60), (1
 PCT_THOROUGH = [(4, "enc", 200, 3000), (4, "dec", 256, 3000), (8, "enc", 300, 1500), (16, "enc", 600, 600), (16, "dec", 560, 600)]
 
 
+HOOK_TAGS = ["ld0", "ld1", "ex0", "ex1", "wr", "wu", "sr", "su", "ti", "ge", "chk", "bu"]
+
+
+def hooks_present():
+    """The scheduling points are part of the trusted base: every WV_POINT tag must still be in the source
+    (which points a given configuration reaches is the code's business and is not demanded)."""
+    src = open(os.path.join(wv.REPO, "kernel/multi_aes/multi_buffergroup.cpp")).read()
+    missing = [t for t in HOOK_TAGS if ('WV_POINT("%s"' % t) not in src]
+    if missing:
+        raise wv.Infra("instrumentation incomplete: the WV_POINT hook(s) %s are no longer in kernel/multi_aes/multi_buffergroup.cpp; "
+                       "without them the exploration is too coarse to be trusted" % missing)
+
+
 def sched_exe(blocks):
     return wv.build("h_sched", ["aes", "pipe"], ["h_sched.cpp"], ["-DWENCRY_VERIF_BUF_SZ=%d" % blocks],
                     sanitize=False, force_include="wv_sync.h")
@@ -58,9 +71,7 @@ def _explore_locked(c, exe, pre, summ):
             for ln in out:
                 if ln.startswith('{"e":"tags"'):
                     tags = set(json.loads(ln)["seen"].split())
-            need = {"begin", "cry", "ge", "chk", "bu", "ti", "ld0", "ld1", "wr", "wu", "sr", "su"} | ({"ex0", "ex1"} if n > 0 or d == "enc" else set())
-            if not need <= tags:
-                raise wv.Infra("instrumentation incomplete: scheduling points %s were never reached in %s (a WV_POINT hook is missing or misplaced in /repo); the exploration would be too coarse to be trusted" % (sorted(need - tags), cfgname(c)))
+            last["tags"] = sorted(tags)
         json.dump(last, open(summ, "w"))
     return pre + ".nodes.ndjson", json.load(open(summ))
 
@@ -78,7 +89,7 @@ def pct(c, blocks=2):
 def _pct_locked(c, exe, pre, summ):
     T, d, n, runs = c
     if not os.path.exists(summ):
-        r = wv.run_harness(exe, ["pct", T, d, n, runs, pre], timeout=3000)
+        r = wv.run_harness(exe, ["pct", T, d, n, runs, pre], timeout=600)
         out = r.stdout.decode(errors="replace").strip().splitlines()
         last = json.loads(out[-1]) if out and out[-1].startswith("{") else {}
         if r.returncode in (7, 8) or last.get("e") in ("stuck", "crash"):
@@ -305,6 +316,7 @@ def run(pid, tier, replay):
         print(r.stderr.decode(errors="replace")[-6000:])
         print(r.stdout.decode(errors="replace")[-3000:])
         return 0
+    hooks_present()
     cfgs = QUICK if tier == "quick" else THOROUGH
     pcts = PCT_QUICK if tier == "quick" else PCT_THOROUGH
     for b in sorted(set(c[4] for c in cfgs)):
